@@ -1120,6 +1120,8 @@ def make_scenario(seed, profile='general'):
         steps.append({'op': 'clean', 'name': 'B'})
         if rnd.random() < P.get('p_double_clean', 0.1):
             steps.append({'op': 'clean', 'name': 'B'})
+    if P.get('p_probe'):
+        universe = universe + [list(cache)]      # "probe all" also asks about the cache file itself (virtually absent)
     sc = {'id': '%s-%d' % (profile, seed), 'cache': cache, 'universe': universe, 'oracle': orc, 'steps': steps}
     if P.get('stale'):
         sc['stale'] = True
